@@ -163,7 +163,14 @@ func edits() []Op {
 		tog("edit:dir/x.txt", func(v *Vars) { v.X = 1 - v.X }),
 		tog("rename:dir/y.txt<->z.txt", func(v *Vars) { v.YName = 1 - v.YName }),
 		tog("addremove:dir/w.txt", func(v *Vars) { v.W = !v.W }),
-		tog("link:dir/link", func(v *Vars) { v.Link = (v.Link + 1) % 3 }),
+		tog("link:dir/link", func(v *Vars) { v.Link = (v.Link + 1) % 4 }),
+		tog("link:dir/link dangling", func(v *Vars) {
+			if v.Link == 3 {
+				v.Link = 0
+			} else {
+				v.Link = 3
+			}
+		}),
 		tog("global:LATE", func(v *Vars) { v.Late = 1 - v.Late }),
 		tog("const:K", func(v *Vars) { v.K = (v.K + 1) % len(kvals) }),
 		tog("const:K int<->float", func(v *Vars) { v.KF = !v.KF }),
@@ -248,6 +255,7 @@ func focused(prop string, thorough bool) []focus {
 		return []focus{
 			{[]string{"edit:src/a.txt", "code:helper", "build:gen", "build:mid", "build:top"}, 8 + d},
 			{[]string{"link:dir/link", "edit:misc/n.txt", "edit:dir/x.txt", "build:mid", "build:top"}, 7 + d},
+			{[]string{"link:dir/link dangling", "edit:dir/x.txt", "addremove:dir/w.txt", "build:mid", "build:top"}, 6 + d},
 			{[]string{"edit:pkg/b.txt", "default:leaf.d", "flag:mode", "build:leaf", "build:top"}, 7 + d},
 			{[]string{"global:LATE", "delete:gen/g.txt", "fail:gen", "build:gen", "build:top"}, 7 + d},
 			{[]string{"fail:mid", "edit:dir/x.txt", "build:mid", "build:top"}, 8 + d},
